@@ -7,10 +7,17 @@
    Negative control (SharedBuffer = TRUE): a getter that formats through a static buffer in two
    steps makes TLC find the interleaving that breaks the invariant - the model is able to
    express the defect the property excludes.
+   CbProg = TRUE: a read through a ...WithCallback entry point is not atomic for the other threads: the
+   library calls back into the application in the middle of it, and whatever the application's other
+   threads do meanwhile (reads of their own files in particular) happens INSIDE this read.  The model
+   splits it into the step up to the callback and the step after it; in between only the shared
+   error-location record may have been touched.  The program then asks for the line number of the
+   entry it has read - a result that stems from the parse after the callback.
    Gen: every complete interleaving is exported as a schedule (sequence of thread ids) and
    replayed deterministically on real threads.                                              *)
 EXTENDS KeyFile, TLC, Json
-CONSTANTS NThreads, ProgLen, SharedBuffer, Export
+CONSTANTS NThreads, ProgLen, SharedBuffer, Export,
+          CbProg      \* TRUE: the programs read through a callback entry point, which is TWO steps (see below)
 VARIABLES pc, obj, res, errloc, buf, sched, half
 vars == <<pc, obj, res, errloc, buf, sched, half>>
 Threads == 1..NThreads
@@ -18,17 +25,26 @@ Threads == 1..NThreads
 A == <<65>>  x == <<120>>  y == <<121>>
 Val(t, n) == <<118, 48 + t, 48 + n>>                  \* "v<t><n>": values identify thread and step
 \* program of thread t: call i
-Op(t, i) == CASE i = 1 -> [op |-> "read",  file |-> t]                    \* parse a private file: 1 entry, sets errloc
+Op(t, i) == IF CbProg
+            THEN CASE i = 1 -> [op |-> "readcb", file |-> t]              \* two steps: up to the callback / after it
+                   [] i = 2 -> [op |-> "line"]                            \* line number of the entry read
+                   [] i = 3 -> [op |-> "set",   g |-> A, k |-> x, v |-> Val(t, i)]
+                   [] i = 4 -> [op |-> "get",   g |-> A, k |-> x]
+                   [] OTHER -> [op |-> "keys",  g |-> A]
+            ELSE
+            CASE i = 1 -> [op |-> "read",  file |-> t]                    \* parse a private file: 1 entry, sets errloc
               [] i = 2 -> [op |-> "set",   g |-> A, k |-> x, v |-> Val(t, i)]
               [] i = 3 -> [op |-> "get",   g |-> A, k |-> x]
               [] i = 4 -> [op |-> "set",   g |-> NoG, k |-> y, v |-> Val(t, i)]
               [] i = 5 -> [op |-> "get",   g |-> NoG, k |-> y]
               [] OTHER -> [op |-> "keys",  g |-> A]
 FileObj(t) == SetText(NewObj, NoG, <<102>>, Val(t, 0))                   \* content of thread t's file: f=v<t>0
+LineOf(t) == 2 * t + 1                                                    \* ... on line 2t+1, after 2t comment lines
 
 \* sequential semantics of one call on a private object: new object + result
 Exec(o, c, t) ==
-  CASE c.op = "read" -> [o |-> FileObj(c.file), r |-> <<"ok">>]
+  CASE c.op \in {"read", "readcb"} -> [o |-> FileObj(c.file), r |-> <<"ok">>]
+    [] c.op = "line" -> [o |-> o, r |-> IF Find(o, NoG, <<102>>) = 0 THEN <<"nokey">> ELSE <<"line", LineOf(t)>>]
     [] c.op = "set"  -> [o |-> SetText(o, c.g, c.k, c.v), r |-> <<"ok">>]
     [] c.op = "get"  -> [o |-> o, r |-> LET i == Find(o, c.g, c.k) IN IF i = 0 THEN <<"nokey">> ELSE <<"ok", o.ents[i].v>>]
     [] OTHER         -> [o |-> o, r |-> <<"keys", KeysIn(o, c.g)>>]
@@ -41,7 +57,11 @@ Init == /\ pc = [t \in Threads |-> 1] /\ obj = [t \in Threads |-> NewObj] /\ res
 Step(t) ==
   /\ pc[t] <= ProgLen
   /\ LET c == Op(t, pc[t])  e == Exec(obj[t], c, t) IN
-     IF SharedBuffer /\ c.op = "get" /\ ~half[t]
+     IF c.op = "readcb" /\ ~half[t]
+     THEN \* up to the callback: nothing of the thread's object is visible yet; the slot is part of the schedule
+          /\ half' = [half EXCEPT ![t] = TRUE] /\ sched' = Append(sched, t) /\ errloc' = <<c.file, 0>>
+          /\ UNCHANGED <<pc, obj, res, buf>>
+     ELSE IF SharedBuffer /\ c.op = "get" /\ ~half[t]
      THEN \* hypothetical defect: first half of a getter writes the value into a static buffer ...
           /\ buf' = e.r /\ half' = [half EXCEPT ![t] = TRUE]
           /\ UNCHANGED <<pc, obj, res, errloc, sched>>
@@ -49,7 +69,7 @@ Step(t) ==
           /\ obj' = [obj EXCEPT ![t] = e.o]
           \* ... second half returns whatever the buffer holds now
           /\ res' = [res EXCEPT ![t] = Append(@, IF SharedBuffer /\ c.op = "get" THEN buf ELSE e.r)]
-          /\ errloc' = IF c.op = "read" THEN <<c.file, 1>> ELSE errloc
+          /\ errloc' = IF c.op \in {"read", "readcb"} THEN <<c.file, 1>> ELSE errloc
           /\ half' = [half EXCEPT ![t] = FALSE]
           /\ sched' = Append(sched, t) /\ UNCHANGED buf
 Next == \E t \in Threads : Step(t)
